@@ -90,6 +90,9 @@ type c07Out struct {
 	Err   string   `json:"err,omitempty"`
 	File  string   `json:"file"`  // hex of the (first / up) file
 	Stmts []string `json:"stmts"` // hex
+	// Drv: what migrate.FileStmts(driver, file) - the executor's, the linter's and the replay's path - returns
+	// for the same file (third-party formats whose files are plain local files go through the DRIVER's scanner)
+	Drv *c07Out `json:"via_driver,omitempty"`
 }
 
 var reNow = regexp.MustCompile(`\d{14}`)
@@ -185,6 +188,18 @@ func writeAndRead(c *c07Case, work string) (out c07Out) {
 		stmts, err = fs[0].Stmts()
 		// formats with a reader of their own (goose: section markers and StatementBegin/End; dbmate: section markers): what the executor
 		// gets through migrate.FileStmts(driver, file) is what that reader returns
+		if c.Formatter == "golang-migrate" || c.Formatter == "flyway" || c.Formatter == "liquibase" {
+			dv := &c07Out{File: out.File}
+			if viaDrv, derr := migrate.FileStmts(drv, fs[0]); derr != nil {
+				dv.Err = "scan"
+			} else {
+				dv.Stmts = []string{}
+				for _, s := range viaDrv {
+					dv.Stmts = append(dv.Stmts, hexS(s))
+				}
+			}
+			out.Drv = dv
+		}
 		if c.Formatter == "goose" || c.Formatter == "dbmate" {
 			viaDrv, derr := migrate.FileStmts(drv, fs[0])
 			if (err == nil) != (derr == nil) || (err == nil && strings.Join(viaDrv, "\x00") != strings.Join(stmts, "\x00")) {
@@ -587,6 +602,11 @@ func runC07(e *Env) error {
 			e.Res.Sample(map[string]any{"dialect": c.Dialect, "formatter": c.Formatter, "delimiter": c.Delimiter, "cmds": c.Changes}, 4)
 		}
 		okI, sig, what := c07Monitor(c, impl)
+		if okI && impl.Err == "" && impl.Drv != nil {
+			if ok2, sig2, what2 := c07Monitor(c, *impl.Drv); !ok2 {
+				okI, sig, what = false, sig2, what2+" (read through migrate.FileStmts with the "+c.Dialect+" driver, as the executor does)"
+			}
+		}
 		// model: atlas / golang-migrate / flyway
 		same := true
 		diff := ""
